@@ -13,7 +13,7 @@ Pipeline (DESIGN.md section 6, C18):
      list -> random tree -> sync -> list, compared with the model; (b) check/fix with -f -d -m -e:
      what is reported and what is written, compared with the model's selection.
 """
-import json, os, random, shutil, subprocess, sys, time
+import heapq, json, os, random, shutil, subprocess, sys, time, zlib
 
 import vlib
 
@@ -26,8 +26,8 @@ MAX_VIOLATION_LINES = 12
 
 TIERS = {
     # cfg, tlc timeout, sync/list scenarios, selection scenarios
-    "quick": dict(cfg="Filter.cfg", timeout=600, n_sync=60, n_sel=12),
-    "thorough": dict(cfg="Filter_thorough.cfg", timeout=2400, n_sync=400, n_sel=60),
+    "quick": dict(cfg="Filter.cfg", timeout=600, n_sync=200, n_sel=40),
+    "thorough": dict(cfg="Filter_thorough.cfg", timeout=2400, n_sync=1500, n_sel=300),
 }
 
 
@@ -53,31 +53,28 @@ class Universe:
         return [list(self.rule_text(r)) for r in rs]
 
 
-def read_cases(path, rng, n_any, n_inc):
+def read_cases(path, seed, n_any, n_inc):
     """Stream the emitted file once: header, number of lines, and two stratified samples (any rule
-    list; include-only lists, which are what -f can express)."""
+    list; include-only lists, which are what -f can express).  The sample is a function of the seed
+    and of the rule lists only, not of the order in which TLC's workers wrote the lines."""
     hdr = None
     count = 0
-    strata_any = {}   # (len, h) -> reservoir
-    strata_inc = {}   # len -> reservoir
-    seen_any = {}
-    seen_inc = {}
+    strata_any = {}   # (len, h) -> heap of (-key, line)
+    strata_inc = {}   # len -> heap
 
-    def reservoir(store, seen, key, item, cap):
-        seen[key] = seen.get(key, 0) + 1
-        lst = store.setdefault(key, [])
-        if len(lst) < cap:
-            lst.append(item)
-        else:
-            j = rng.randrange(seen[key])
-            if j < cap:
-                lst[j] = item
+    def keep(store, skey, key, line, cap):
+        heap = store.setdefault(skey, [])
+        if len(heap) < cap:
+            heapq.heappush(heap, (-key, line))
+        elif -heap[0][0] > key:
+            heapq.heapreplace(heap, (-key, line))
 
+    salt = ("%d:" % seed).encode()
     with open(path) as f:
         for line in f:
             if not line.strip():
                 continue
-            if line.startswith('{"') and '"patterns"' in line[:4000] and hdr is None and '"paths"' in line:
+            if hdr is None and '"patterns"' in line[:4000]:
                 hdr = json.loads(line)
                 continue
             count += 1
@@ -85,25 +82,26 @@ def read_cases(path, rng, n_any, n_inc):
             try:
                 i = line.index('"r":[') + 5
                 j = line.index(']', i)
-                rs = [int(x) for x in line[i:j].split(",")] if j > i else []
+                rtxt = line[i:j]
+                rs = [int(x) for x in rtxt.split(",")] if j > i else []
                 k = line.index('"h":') + 4
                 h = int(line[k])
             except ValueError:
                 raise vlib.ToolFailure("unparsable case line %d in %s" % (count, path))
-            reservoir(strata_any, seen_any, (len(rs), h), line, n_any)
+            key = zlib.crc32(salt + rtxt.encode() + (b"h" if h else b""))
+            keep(strata_any, (len(rs), h), key, line, n_any)
             if rs and h == 0 and all(r % 2 for r in rs):
-                reservoir(strata_inc, seen_inc, len(rs), line, n_inc)
+                keep(strata_inc, len(rs), key, line, n_inc)
     if hdr is None:
         raise vlib.ToolFailure("no header line in " + path)
-    return hdr, count, strata_any, strata_inc
+    flat = lambda store: {k: [ln for _, ln in sorted(hp, reverse=True)] for k, hp in store.items()}
+    return hdr, count, flat(strata_any), flat(strata_inc)
 
 
 def pick(rng, strata, n, skip_empty_len=True):
     """Round-robin over the strata so that every list length / nohidden flag is represented."""
     keys = sorted(k for k in strata if not (skip_empty_len and (k == 0 or (isinstance(k, tuple) and k[0] == 0))))
     pools = {k: list(strata[k]) for k in keys}
-    for k in keys:
-        rng.shuffle(pools[k])
     out = []
     while len(out) < n and any(pools.values()):
         for k in keys:
@@ -417,7 +415,7 @@ def diff_states(exp, got):
                 if x is None:
                     return "absent"
                 if x[0] == "file":
-                    return "file(%d bytes, crc %08x)" % (len(x[1]), __import__("zlib").crc32(x[1]))
+                    return "file(%d bytes, crc %08x)" % (len(x[1]), zlib.crc32(x[1]))
                 return "%s%s" % (x[0], (" -> " + x[1]) if x[0] == "link" else "")
             out.append({"path": p, "expected": short(a), "found": short(b)})
     return out
@@ -452,7 +450,10 @@ def e2e_select(v, U, snap, scratch, rng, inc_cases, k):
 
         def check_frozen(step, sel):
             now = file_digest(arr.protected)
-            changed = [p for p in arr.protected if now[p] != frozen[p]]
+            # -e alone keeps the parity in scope (blocks marked bad may be parity blocks); with -f, -m or
+            # -d <data disk> the parity files are outside the selection
+            scope = arr.protected if (sel.case or sel.disks or sel.missing) else arr.protected[2:]
+            changed = [p for p in scope if now[p] != frozen[p]]
             if changed:
                 fail(step, sel, "files outside the selection were written: %s" % changed, changed)
 
@@ -474,6 +475,8 @@ def e2e_select(v, U, snap, scratch, rng, inc_cases, k):
             check_frozen(step, sel)
 
         def plain_fix(step):
+            # without selection fix may (re)write parity: the reference for "nothing else written" restarts
+            nonlocal frozen
             rc, out = arr.run("fix")
             steps.append([step])
             if rc != 0:
@@ -483,6 +486,7 @@ def e2e_select(v, U, snap, scratch, rng, inc_cases, k):
                 df = diff_states(orig[d], snapshot(arr.disks[d]))
                 if df:
                     fail(step, nosel, "fix without selection did not restore disk %s: %s" % (d, df[:4]), df[:20])
+            frozen = file_digest(arr.protected)
 
         # --- step 1: every file silently corrupted; check with -f/-d reports exactly the selection, writes nothing
         for d in trees:
@@ -585,6 +589,7 @@ def run_harness(v, exe, cases, label):
 
 def run(tier):
     T = TIERS[tier]
+    shutil.rmtree(os.path.join(vlib.OUT, "replays", PID), ignore_errors=True)
     v = vlib.Verdict(PID, tier, "model_checking")
     rng = random.Random(vlib.seed() * 7919 + 18)
     build_dir = os.environ.get("VERIF_BUILD", vlib.BUILD)
@@ -616,7 +621,7 @@ def run(tier):
         if res.error:
             sys.stderr.write(res.out[-3000:])
             raise vlib.ToolFailure("TLC: " + res.error)
-        hdr, nlines, strata_any, strata_inc = read_cases(cases, rng, T["n_sync"], 200)
+        hdr, nlines, strata_any, strata_inc = read_cases(cases, vlib.seed(), T["n_sync"], 200)
         if nlines != res.distinct or nlines == 0:
             raise vlib.ToolFailure("TLC found %d states but emitted %d case lines" % (res.distinct, nlines))
         U = Universe(hdr)
@@ -664,31 +669,40 @@ def run(tier):
         sync_cases = pick(rng, strata_any, T["n_sync"], skip_empty_len=False)
         n_cmp = n_amb = n_bad = 0
         sample_sync = None
-        for k, case in enumerate(sync_cases):
-            c, a, b, scen = e2e_sync(v, U, snap, scratch, rng, case, k)
-            n_cmp += c
-            n_amb += a
-            n_bad += b
-            if sample_sync is None and len(case["r"]) >= 2:
-                sample_sync = scen
-            if len(v.violations) >= MAX_VIOLATION_LINES:
-                break
+        n_sync_done = 0
         inc_cases = pick(rng, strata_inc, 600)
         n_sel_checks = 0
         sample_sel = None
         n_sel_done = 0
-        for k in range(T["n_sel"]):
-            if len(v.violations) >= MAX_VIOLATION_LINES:
-                break
-            c, scen, steps = e2e_select(v, U, snap, scratch, rng, inc_cases, k)
-            n_sel_checks += c
-            n_sel_done += 1
-            if sample_sel is None:
-                sample_sel = {"tree": scen["tree"], "steps": steps}
+        try:
+            for k, case in enumerate(sync_cases):
+                c, a, b, scen = e2e_sync(v, U, snap, scratch, rng, case, k)
+                n_sync_done += 1
+                n_cmp += c
+                n_amb += a
+                n_bad += b
+                if sample_sync is None and len(case["r"]) >= 2:
+                    sample_sync = scen
+                if len(v.violations) >= MAX_VIOLATION_LINES:
+                    break
+            for k in range(T["n_sel"]):
+                if len(v.violations) >= MAX_VIOLATION_LINES:
+                    break
+                c, scen, steps = e2e_select(v, U, snap, scratch, rng, inc_cases, k)
+                n_sel_checks += c
+                n_sel_done += 1
+                if sample_sel is None:
+                    sample_sel = {"tree": scen["tree"], "steps": steps}
+        except vlib.ToolFailure as ex:
+            # once disagreements are on record a command of the binary failing later on is a
+            # consequence, not a reason to withhold the verdict
+            if not v.violations:
+                raise
+            print("C18: end-to-end part stopped after violations: %s" % ex)
         t_e2e = time.time() - t2
         print("C18: end to end: %d sync+list scenarios (%d entries compared, %d of them ambiguous in the manual), "
               "%d selection scenarios (%d entry checks), %.0fs"
-              % (len(sync_cases), n_cmp, n_amb, n_sel_done, n_sel_checks, t_e2e))
+              % (n_sync_done, n_cmp, n_amb, n_sel_done, n_sel_checks, t_e2e))
 
         # evidence
         samples = []
@@ -713,7 +727,7 @@ def run(tier):
             "function_level_mismatches": tot["mismatches"] + tot_r["mismatches"],
             "manual_ambiguous_file_cases": tot["ambiguous"],
             "patterns": len(U.patterns), "paths": len(U.paths),
-            "e2e_sync_scenarios": len(sync_cases), "e2e_sync_entries_compared": n_cmp,
+            "e2e_sync_scenarios": n_sync_done, "e2e_sync_entries_compared": n_cmp,
             "e2e_sync_entries_ambiguous_in_manual": n_amb,
             "e2e_selection_scenarios": n_sel_done, "e2e_selection_entry_checks": n_sel_checks,
             "tlc_wall_s": round(t_tlc, 1), "harness_wall_s": round(t_har, 1), "e2e_wall_s": round(t_e2e, 1),
@@ -735,3 +749,62 @@ def run(tier):
         return v.finish(coverage=cov, assumptions=assumptions)
     finally:
         shutil.rmtree(scratch, ignore_errors=True)
+
+
+# ---------------------------------------------------------------------------------------
+# replay of a recorded violation (./verif replay <file>): returns 1 if it still reproduces, 0 if not
+
+def replay(obj):
+    """obj: the "replay" member of a file written by Verdict.violation."""
+    build_dir = os.environ.get("VERIF_BUILD", vlib.BUILD)
+    snap = vlib.build("hooks")
+    kind = obj.get("kind")
+    if kind == "function-level":
+        m = obj["case"]
+        objs = [os.path.join(build_dir, "hooks", "obj", o) for o in LINK_OBJS]
+        srcs = [os.path.join(vlib.VERIF, "harness", "c", "filter_conf.c")]
+        if "repository" in obj.get("fnmatch", ""):
+            srcs.append(os.path.join(vlib.VERIF, "harness", "c", "bundled_fnmatch.c"))
+        exe = vlib.cc_harness("filter_conf_replay", srcs, objs, libs=["-lblkid"])
+        if "rules" not in m:
+            print("own-file case, re-run the check: %s" % m)
+            return 2
+        args = [exe, "--probe", str(m["nohidden"]), m["path"]]
+        for d, p in m["rules"]:
+            args += [d, p]
+        out = subprocess.run(args, stdout=subprocess.PIPE, text=True).stdout
+        got = json.loads(out)
+        field = {("filter_path", "file"): "file", ("filter_path", "link"): "file", ("filter_subdir", "dir"): "dir",
+                 ("filter_emptydir", "emptydir"): "emptydir", ("scan walk", "file"): "walk_file",
+                 ("scan walk", "link"): "walk_file", ("scan walk", "dir"): "walk_dir"}.get((m["call"], m["kind"]))
+        print("rules %s nohidden=%d path '%s': implementation answers %s; model says %s for %s/%s"
+              % (m["rules"], m["nohidden"], m["path"], got, m["model_included"], m["call"], m["kind"]))
+        if field is None or field not in got:
+            return 1
+        return 1 if got[field] != m["model_included"] else 0
+    if kind == "e2e-sync":
+        sc, mm = obj["scenario"], obj["mismatch"]
+        scratch = vlib.scratch_root()
+        try:
+            rng = random.Random(1)
+            arr = Array(os.path.join(scratch, "r"), snap, rules=[tuple(r) for r in sc["rules"]],
+                        nohidden=bool(sc["nohidden"]), content_on_d2="b/c")
+            for d, t in sc["tree"].items():
+                tree = {p: (("file", rng.randbytes(700)) if k == "file" else ("link", "../a") if k == "link"
+                            else ("emptydir",)) for p, k in t.items()}
+                materialize(arr.disks[d], tree)
+            os.makedirs(os.path.join(arr.disks["d2"], "b"), exist_ok=True)
+            with open(os.path.join(arr.disks["d1"], "content.tmp"), "w") as f:
+                f.write("stale")
+            arr.run("sync")
+            rc, out = arr.run("list")
+            files, links, ok = listed(out)
+            got = (mm["disk"], mm["path"]) in (files | links)
+            print("config %s: '%s' on %s is %s by snapraid, the model says %s"
+                  % (arr.conf_text[6:], mm["path"], mm["disk"], "listed" if got else "not listed",
+                     "included" if mm["model_included"] else "excluded"))
+            return 1 if got != mm["model_included"] else 0
+        finally:
+            shutil.rmtree(scratch, ignore_errors=True)
+    print("selection scenario (re-run `./verif check C18 quick` to re-evaluate): %s" % json.dumps(obj, indent=1)[:3000])
+    return 2
